@@ -5,6 +5,10 @@ V = os.path.dirname(os.path.dirname(os.path.abspath(__file__)))
 
 # id -> (technique, level text, level note, design ref)
 CHECKS = {
+ "C04": ("bounded-exhaustive + proptest (grammar streams, style-syntax words, arbitrary Unicode/bytes) through one decoder into every untrusted-input entry point, in two builds (debug-assertions+overflow-checks and plain -O); thorough adds the libFuzzer/AddressSanitizer target 'robust'",
+         "Generated-input robustness search with the oracle 'no panic, sub-slice and UTF-8 validity of every returned piece/String, results in range', executed in a checked build (debug_assert!, overflow, the debug-only from_utf8 expect) and in a plain -O build (where the unsafe from_utf8_unchecked path is the one taken); the thorough tier runs a bounded coverage-guided campaign under AddressSanitizer.",
+         "Trusted: catch_unwind (a panic = violation), R-UTF8 for validity of returned strings, ASan for memory errors (thorough only).",
+         "DESIGN.md §2.6, §4-C04"),
  "C20": ("differential testing of four builds of the parser (feature sets utf8, core, core+utf8, none) on proptest-generated 7-bit grammar streams and boundary-length OSC payloads, against each other and the reference VT parser; truncation predicate for oversize payloads",
          "Differential generated-input search across configurations: the same inputs are parsed by four separately compiled worker binaries; within the documented limit all logs must be identical and equal to the reference model, beyond it the fixed-buffer builds must satisfy a truncation predicate (no panic, <= 1024 bytes, prefix fields, same terminator, other events identical).",
          "Trusted: the reference VT parser; cargo feature unification is avoided by building the worker package four times outside the harness workspace.",
@@ -111,6 +115,8 @@ manifest = {
         "add_only": True,
     },
     "engines": [
+        {"name": "fuzz", "path": "harness/fuzz", "serves_properties": ["C01", "C02", "C03", "C04", "C07"],
+         "kind_free_text": "cargo-fuzz crate (libFuzzer + AddressSanitizer, nightly): targets strip, parser, chunk, sgr, robust with the semantic oracle of the corresponding check inside the target; run by the thorough tier through scripts/fuzz.sh with -runs/-seed, committed seed corpus in corpus/"},
         {"name": "harness", "path": "harness", "serves_properties": sorted(CHECKS),
          "kind_free_text": "cargo workspace: vcore (runner, reference VT parser / SGR interpreter / generators, evidence, replay) + one proptest/bounded-exhaustive binary per property, path-depending on /repo/crates/*"},
     ],
